@@ -75,6 +75,44 @@ VCS_VERBS = {
 }
 
 
+# What a command must be handed to do what its step stands for (the values are filled in by VCSAPI.__call__ from the keyword
+# arguments of the call site; a placeholder that the template lacks is dropped without a trace).
+VCS_PLACEHOLDERS = {
+    "git": {"add_path": ("{path}",), "commit": ("{message}",), "tag": ("{tag}", "{message}"), "tag_light": ("{tag}",), "push_tag": ("{remote}", "{tag}"), "push": ("{remote}",)},
+    "hg": {"add_path": ("{path}",), "commit": ("{path}",), "tag": ("{tag}", "{message}"), "tag_light": ("{tag}",), "push_tag": ("{tag}",)},
+}
+
+
+def command_placeholders_rule(ctx, rule: str) -> None:
+    """Each mutating command template names the values its step is about: the path to stage, the message (file) to commit,
+    the tag to create and to push, the remote to push to; `git config --get` asks for a key."""
+    import shlex as _shlex
+    prog = ctx.prog
+    table = prog.const("vcs", "VCS_SUBCOMMANDS_BY_NAME")
+    n = 0
+    for vcs_name, need in VCS_PLACEHOLDERS.items():
+        for key, phs in sorted(need.items()):
+            tmpl = table.get(vcs_name, {}).get(key)
+            if tmpl is None:
+                continue
+            n += 1
+            missing = [ph for ph in phs if ph not in tmpl]
+            ctx.check(rule, not missing, f"{vcs_name} '{key}' names {', '.join(phs)}",
+                      f"vcs.VCS_SUBCOMMANDS_BY_NAME['{vcs_name}']['{key}'] does not use a value its step is about",
+                      f"`{tmpl}` lacks {missing}: the value is passed by the call site and dropped - the command acts on something else (git reads the next word as the remote / pushes no tag / "
+                      f"stages nothing)", loc="src/bumpver/vcs.py", witness={"vcs": vcs_name, "command": key, "missing": missing})
+    ctx.floor(rule, "command templates with required placeholders", n, 11)
+    tmpl = table.get("git", {}).get("show_remotes", "")
+    try:
+        toks = _shlex.split(tmpl)
+    except ValueError:
+        toks = tmpl.split()
+    if len(toks) >= 2 and toks[1] == "config":
+        has_key = any(not t_.startswith("-") for t_ in toks[2:])
+        ctx.check(rule, has_key, "git 'show_remotes': `git config --get` is asked for a key", "vcs.VCS_SUBCOMMANDS_BY_NAME['git']['show_remotes'] asks `git config` for no key",
+                  f"`{tmpl}` fails, get_remote() answers None and an enabled push is silently skipped", loc="src/bumpver/vcs.py", witness={"command": tmpl})
+
+
 def run(ctx) -> None:
     prog, effects, cfgs = ctx.prog, ctx.effects, ctx.cfgs
     ctx.rule("R1", "step order: no path executes a later step before an earlier one")
@@ -547,6 +585,8 @@ def run(ctx) -> None:
                       f"vcs.VCS_SUBCOMMANDS_BY_NAME['{vcs_name}']['{key}'] runs another command than its name says",
                       f"`{tmpl}`: the step named '{key}' (classified {'mutating' if key in ('add_path', 'commit', 'tag', 'tag_light', 'push', 'push_tag') else 'fetch' if key == 'fetch' else 'read-only'}) "
                       f"executes `{' '.join(toks[:2])}`", loc="src/bumpver/vcs.py", witness={"vcs": vcs_name, "command": key})
+
+    command_placeholders_rule(ctx, "R8")
 
     # ---------------------------------------------------------------- R7 (config side): tag / push without commit are refused when the config is read
     from sa.report import run_prerequisite
